@@ -46,7 +46,8 @@ GAllowedOf(x) == IF x[2].stream = "ap" THEN S!ApEntries(GT, GO, x[1], x[2]) ELSE
 GBag == [l \in {T.probes[i][1] : i \in 1..Len(T.probes)} |-> (CHOOSE i \in 1..Len(T.probes) : T.probes[i][1] = l) ]
 GProbeBag == [l \in DOMAIN GBag |-> T.probes[GBag[l]][2]]
 GlobImpl == <<
-    <<Cardinality(GOut) = Len(T.out), "glob:duplicate-entries">>,
+    \* identical entries arise only from {nidq: None}: one per .nidq recording of the folder whose binary is missing
+    <<\A e \in GOut : Cardinality({i \in 1..Len(T.out) : T.out[i] = e}) = Cardinality({x \in GDrivers : e \in GAllowedOf(x)}), "glob:entry-count">>,
     <<\A x \in GDrivers : IF GAllowedOf(x) = {} THEN TRUE ELSE Cardinality(GAllowedOf(x) \cap GOut) = 1, "glob:entry-of-recording">>,
     <<\A e \in GOut : \E x \in GDrivers : e \in GAllowedOf(x), "glob:unexpected-entry">>,
     <<T.vfiles = S!ImplVersionFiles(GOut), "glob:version_from_files">>,
